@@ -1880,6 +1880,45 @@ def _line_input(corpus, line):
     raise ValueError("unknown command in case line: " + cmd)
 
 
+UTF8_ORACLE = [False]        # C10 only: a decoded generated `string` field must hold UTF-8 (finding F-10b when it does not)
+
+
+def _bad_utf8(msg, v, depth=0):
+    """path of a `string` position of the canonical value v that is not UTF-8 (fields the implementation validates --
+    the std String wrapper -- excluded), or None"""
+    def bad(b):
+        try:
+            bytes(b).decode("utf-8")
+            return False
+        except UnicodeDecodeError:
+            return True
+    for sl, x in zip(msg.slots, v):
+        def el(s, y):
+            if s.ty == "message":
+                return _bad_utf8(s.ref, y, depth + 1) if depth < 40 else None
+            if s.ty == "string" and not getattr(s, "utf8", False) and isinstance(y, (bytes, bytearray)) and bad(y):
+                return s.name
+            return None
+        r = None
+        if sl.kind in ("s", "w"):
+            r = el(sl, x)
+        elif sl.kind == "o":
+            r = None if x is None else el(sl, x)
+        elif sl.kind == "r":
+            for y in x:
+                r = r or el(sl, y)
+        elif sl.kind == "m":
+            for k, y in x:
+                if sl.kty == "string" and isinstance(k, (bytes, bytearray)) and bad(k):
+                    r = r or (sl.name + ".key")
+                r = r or el(sl, y)
+        elif sl.kind == "u":
+            r = None if x is None else el(sl.members[x[0]], x[1])
+        if r:
+            return r if r.startswith(msg.name) else "%s.%s" % (msg.name, r)
+    return None
+
+
 def judge(corpus, sizes, line, out_text, feature="plain"):
     """None, or (class, why): the verdict of the property oracles on ONE annotated line, from the
     implementation's output and the reference decoder alone"""
@@ -1934,6 +1973,10 @@ def judge(corpus, sizes, line, out_text, feature="plain"):
         if o.status != "OK":
             cls = "unknown-at-depth-limit" if kind == "unk-at-limit" else "rejects-valid"
             return (cls, "a valid encoding is rejected: " + out_text[:120])
+    if UTF8_ORACLE[0] and o.status == "OK" and ref[0] == "ok" and msg is not None:
+        where = _bad_utf8(msg, ref[1])
+        if where:
+            return ("invalid-utf8-accepted", "the decoded message holds a `string` that is not UTF-8 (%s): FastStr::from_bytes_unchecked on unvalidated bytes" % where)
     if o.status == "ERR":
         if ref[0] == "ok" and kind == "fuzz":
             return ("rejects-valid", "the reference decoder accepts these bytes, pilota says " + out_text[:80])
@@ -2866,8 +2909,23 @@ def run_c10(chk, prop, corpus, gen_bins, model_runner, rng, tier, replay=None):
         cases, kinds = _c10_cases(corpus, rng, tier)
         g = gen_group_malformed(corpus, rng, tier)
         cases += g; kinds["group-holder"] = len(g)
+        # invalid UTF-8 in every `string` position (F-10b): a two-byte string ff fe in the first string field of each message
+        nutf = 0
+        for m in corpus:
+            if m.wrapper is not None:
+                continue
+            for sl in m.slots:
+                if sl.kind in ("s", "o", "r") and sl.ty == "string":
+                    cases.append(ann("decq %d %s" % (m.idx, hx(enc_tag(sl.number, WT_LEN) + b"\x02\xff\xfe")), k="fuzz", g="bad-utf8"))
+                    nutf += 1
+                    break
+        kinds["invalid-utf8-string"] = nutf
     nt = [len(strip_ann(c)) > 12 for c in cases]
-    return _finish(chk, corpus, gen_bins, model_runner, cases, nt, False, dict(kinds=kinds), suppress=ROUNDTRIP_ONLY)
+    UTF8_ORACLE[0] = True
+    try:
+        return _finish(chk, corpus, gen_bins, model_runner, cases, nt, False, dict(kinds=kinds), suppress=ROUNDTRIP_ONLY)
+    finally:
+        UTF8_ORACLE[0] = False
 
 
 # ---- C18
